@@ -25,5 +25,13 @@
 #define SGN(v) ((v) > 0 ? 1 : ((v) < 0 ? -1 : 0))
 /* R12/R14: an STL container member becomes an opaque (data,size) pair; growth is not modelled */
 typedef struct { void* data; size_t size; } VF_Vec;
+/* R14 output vectors: fixed-capacity arrays; capacity is what reserve() asked for, VF_PUSH beyond it is an error the
+   proof must exclude (C++ would reallocate; the proved bound on pushes makes that unreachable) */
+#define VF_RESERVE(v, n) do { (v).cap = (n); (v).data = malloc(((n) ? (n) : 1) * sizeof(*(v).data)); __CPROVER_assume((v).data != NULL); } while (0)
+#define VF_PUSH(v, e) do { __CPROVER_assert((v).size < (v).cap, "VF_PUSH within reserved capacity"); (v).data[(v).size] = (e); (v).size++; } while (0)
+#define VF_POP(v) do { __CPROVER_assert((v).size > 0, "pop_back on non-empty vector"); (v).size--; } while (0)
+#define VF_CLEAR(v) do { (v).size = 0; } while (0)
+typedef struct { bool* data; size_t size; } VecBool;
+typedef struct { double* data; size_t size; } VecDouble;
 #define VF_CANARY() __CPROVER_assert(0, "VF_CANARY reachability")
 #endif
